@@ -12,6 +12,10 @@ TRUST = ("Trusted base: the AST instrumenter and simrt scheduler (syntactic rewr
          "Sampling, not enumeration: a clean batch is evidence, not proof. Standard library, codec and generated code are atomic to the scheduler.")
 
 CLAIMED = {
+    "C14": ("5/C14", "Selector level: two real selector instances driven by different tape-drawn add/remove/refresh histories to the same set are compared with each other and with an independently built Ketama ring / mod-hash slot model on ring points, their +-1 neighbours, 0, MaxUint32 and random codes, followed by removal and addition of one endpoint (only codes of the removed endpoint move; codes move only onto the added one). "
+            "Cluster level (what makes this a simulation target): hash-routed calls through the real client stack while scripted servers fail and recover and the manager removes and reinstates endpoints concurrently; each call is compared with the reference applied to the rotation at selection time."),
+    "C15": ("5/C15", "Seeded search over per-server fault timelines (silent, refusing, recovering; phases of 2-100s straddling the 5-failure, 5s, 30s and 60s thresholds), call intervals, time-outs, status-check periods and schedules, 100-300 simulated seconds per run with the real endpointManager, status-check and refresh loops, adapters and transport against 2-5 scripted servers behind a scripted registry; "
+            "oracles over the recorded history (rotation snapshots at every call and 4x per simulated second, arrivals per server, outcome per call): no removal with fewer than two failures since (re)instatement, >=5 consecutive failures over >=5s imply removal after the next status check while another endpoint is active, probes at most every 30s (tolerance: 1s granularity + one call gap), answered probe => back in rotation, unanswered => stays out, calls are still attempted when everything is blocked."),
     "C13": ("5/C13", "Seeded search over interleavings (statement granularity) of 1-3 selecting and 1-2 updating goroutines on the real selectors (round-robin, random, mod-hash, consistent-hash; weighted and not) over weight vectors including zero and negative weights; "
             "the recorded invoke/return history is checked with porcupine against the model 'Select returns a member of the current set, or an error only if no endpoint is eligible', any panic is a violation; a sequential phase checks strict rotation by host and the exact composition of one weighted cycle, max(1, floor(W_i*R/W_max)), on a set reached through a drawn history."),
     "C11": ("5/C11", "Seeded search over the points at which a scripted server (which answers every request it reads) closes connections - after any response, when idle, after a reconnect notification, by crash+restart - x gaps between close and next call (0ms-2.5s, straddling the sender's 1s poll) x interleavings of callers, sender and receiver goroutines of the real client; "
